@@ -281,6 +281,7 @@ func main() {
 }
 `
 
+var rePkgAll = regexp.MustCompile(`gen(\d+)/all\.go:`)
 var reProgFile = regexp.MustCompile(`p(\d+)(_co)?\.go`)
 
 func progOfLine(line string) int {
@@ -618,6 +619,17 @@ func compileUnits(c *vf.Check, dir string, u unitSpec) (status []string, npk int
 				status[p] = "build: " + strings.TrimSpace(ln)
 				again[p/u.PerPkg] = true
 				n++
+			} else if m := rePkgAll.FindStringSubmatch(ln); m != nil {
+				// the registration file of the package (generated from all_co.go) does not build:
+				// the output of the whole package is unusable
+				pk := 0
+				fmt.Sscanf(m[1], "%d", &pk)
+				for i := pk * u.PerPkg; i < (pk+1)*u.PerPkg && i < u.N; i++ {
+					if status[i] == "" {
+						status[i] = "build: " + strings.TrimSpace(ln)
+						n++
+					}
+				}
 			}
 		}
 		if n == 0 {
